@@ -1315,6 +1315,8 @@ class Interp:
                     if r is not None:
                         return r
                 raise Unsupported('unknown attribute %s of %s' % (name, o.cls), node)
+            if name in o.f and isinstance(o.f[name], V):
+                return o.f[name]      # data attribute of a model object
             return VFunc('meth', name, recv)
         if isinstance(recv, VModule):
             return self.module_attr(ctx, recv, name, node)
